@@ -9,7 +9,7 @@
 From Coq Require Import List Arith Bool.
 From AV Require Import Base.Util Spec.Lang Spec.FA Spec.Minimal Spec.Regex Model.Decide Model.Subset Model.Minimize
      Model.RegexLex Model.RegexParse Model.RegexBuild Proofs.RegexCompile Proofs.RegexTotal
-     Props.P_C05 Props.P_C05b Props.P_C07 Props.P_C10 Props.P_C11.
+     Model.Product Proofs.Compose Props.P_C05 Props.P_C05b Props.P_C06 Props.P_C07 Props.P_C10 Props.P_C11.
 Import ListNotations.
 
 Definition regex_to_min_dfa (cs : list nat) (alpha : option (list nat)) : res dfa :=
@@ -95,4 +95,51 @@ Example C05_example_regex_pipeline :
   | Ok m => match determinize_m m with Ok P => (Nat.leb (length (n_states m)) 14, size P) | Err _ => (false, 0) end
   | Err _ => (false, 0)
   end = (true, 3).
+Proof. vm_compute. repeat split. Qed.
+
+(* ---- == then minify (C06 -> C05): automata that compare equal minimise to the same number of states, provided the
+        two results are of the same kind (both complete or both partial: minimality is among the DFAs of one kind) and
+        the operands list the same alphabet ---- *)
+Theorem C05_equal_dfas_minify_to_equal_size : forall A B RA RB,
+  valid_dfa A = true -> valid_dfa B = true -> d_syms A = d_syms B -> eq_m A B = Ok true ->
+  minify A = Ok RA -> minify B = Ok RB -> (complete RA <-> complete RB) ->
+  size RA = size RB /\ L_dfa RA =L L_dfa RB.
+Proof.
+  intros A B RA RB HA HB Hsy Heq EA EB Hk.
+  destruct (C06_eq_ne A B HA HB (same_syms_eq A B Hsy)) as [[b [Eb Hb]] _].
+  rewrite Heq in Eb. injection Eb as Eb. assert (HL : L_dfa A =L L_dfa B) by (apply Hb; symmetry; exact Eb).
+  destruct (C05_minify A HA) as [RA' [EA' [VA [LA [MA1 MA2]]]]]. rewrite EA in EA'. injection EA' as EA'. subst RA'.
+  destruct (C05_minify B HB) as [RB' [EB' [VB [LB [MB1 MB2]]]]]. rewrite EB in EB'. injection EB' as EB'. subst RB'.
+  destruct (C05_minify_valid A RA HA EA) as [_ [SA _]]. destruct (C05_minify_valid B RB HB EB) as [_ [SB _]].
+  assert (LAB : L_dfa RA =L L_dfa RB).
+  { eapply lang_eq_trans; [exact LA|]. eapply lang_eq_trans; [exact HL|apply lang_eq_sym; exact LB]. }
+  assert (SAB : d_syms RA = d_syms RB) by (rewrite SA, SB; exact Hsy).
+  split; [|exact LAB]. apply Nat.le_antisymm.
+  - destruct (d_partial RA) eqn:Ep.
+    + assert (Hn : ~ complete RA).
+      { intro Hc. apply (C05_minify_kind A RA HA EA) in Hc. rewrite Hc in Ep. discriminate. }
+      exact (MA2 Hn RB VB (eq_sym SAB) (lang_eq_sym _ _ LAB)).
+    + assert (Hc : complete RA) by (apply (C05_minify_kind A RA HA EA); exact Ep).
+      exact (MA1 Hc RB VB (proj1 Hk Hc) (eq_sym SAB) (lang_eq_sym _ _ LAB)).
+  - destruct (d_partial RB) eqn:Ep.
+    + assert (Hn : ~ complete RB).
+      { intro Hc. apply (C05_minify_kind B RB HB EB) in Hc. rewrite Hc in Ep. discriminate. }
+      exact (MB2 Hn RA VA SAB LAB).
+    + assert (Hc : complete RB) by (apply (C05_minify_kind B RB HB EB); exact Ep).
+      exact (MB1 Hc RA VA (proj2 Hk Hc) SAB LAB).
+Qed.
+Print Assumptions C05_equal_dfas_minify_to_equal_size.
+
+(* non-vacuity, and the kind hypothesis is needed: {"0"} as a complete DFA with a trap and as a partial DFA compare
+   equal; the first minimises to 3 states (complete), the second to 2 (partial).  Two complete presentations of
+   "even number of 0s" (2 and 4 states) minimise to 2 states each *)
+Example C05_example_equal_then_minify :
+  let a := mkdfa [0; 1; 2] [0] [(0, [(0, 1)]); (1, [(0, 2)]); (2, [(0, 2)])] 0 [1] false in
+  let b := mkdfa [0; 1] [0] [(0, [(0, 1)]); (1, [])] 0 [1] true in
+  let c := mkdfa [0; 1] [0] [(0, [(0, 1)]); (1, [(0, 0)])] 0 [0] false in
+  let d := mkdfa [0; 1; 2; 3] [0] [(0, [(0, 1)]); (1, [(0, 2)]); (2, [(0, 3)]); (3, [(0, 0)])] 0 [0; 2] false in
+  let sz x := match minify x with Ok R => (size R, d_partial R) | Err _ => (0, true) end in
+  valid_dfa a = true /\ valid_dfa b = true /\ valid_dfa c = true /\ valid_dfa d = true /\
+  eq_m a b = Ok true /\ sz a = (3, false) /\ sz b = (2, true) /\
+  eq_m c d = Ok true /\ sz c = (2, false) /\ sz d = (2, false).
 Proof. vm_compute. repeat split. Qed.
